@@ -105,3 +105,30 @@ twin("C03-T1", "C03", "transition * dt / timescale", M, "Model.update_links", "c
 twin("C03-T2", "C03", "scale = dt / timescale hoisted", M, "Model.update_links", "                try:\n                    converted_frac = transition * (self.dt / par.timescale)", "                scale = self.dt / par.timescale\n                try:\n                    converted_frac = scale * transition")
 twin("C03-T4", "C03", "rate and probability as a set test", M, "Model.update_links", "if par.units == FS.QUANTITY_TYPE_RATE or par.units == FS.QUANTITY_TYPE_PROBABILITY:", "if par.units in {FS.QUANTITY_TYPE_RATE, FS.QUANTITY_TYPE_PROBABILITY}:")
 twin("C03-T5", "C03", "duration via reciprocal product", M, "Model.update_links", "converted_frac = self.dt / (transition * par.timescale)", "converted_frac = (self.dt / par.timescale) / transition")
+
+# =============================================================================================== C04
+mutant("C04-M1", "C04", "R04a", "JunctionCompartment.update copies vals forward", M, "JunctionCompartment.update", "        pass", "        self.vals[ti] = self.vals[ti - 1]")
+mutant("C04-M2", "C04", "R04a", "initial_flush without the final zeroing", M, "JunctionCompartment.initial_flush", "            self.vals[0] = 0.0", "            pass")
+mutant("C04-M3", "C04", "R04c", "residual balance threshold < 0.5", M, "ResidualJunctionCompartment.balance", "if link.parameter is None and total_outflow < 1:", "if link.parameter is None and total_outflow < 0.5:")
+mutant("C04-M4", "C04", "R04d", "framework junction-outflow test against probability", "atomica/framework.py", "ProjectFramework._validate_parameters", "                        if par[\"format\"] != FS.QUANTITY_TYPE_PROPORTION:\n                            raise InvalidFramework('Parameter \"%s\" has an outflow from a junction", "                        if par[\"format\"] != FS.QUANTITY_TYPE_PROBABILITY:\n                            raise InvalidFramework('Parameter \"%s\" has an outflow from a junction")
+mutant("C04-M5", "C04", "R04d", "transition_pars filter dropped", M, "Model._set_exec_order", "if par.links and par.units != FS.QUANTITY_TYPE_PROPORTION:", "if par.links:")
+mutant("C04-M6", "C04", "R04e", "flush_junctions before the first update_pars", M, "Model.process", "            self.update_pars()  # Update transition parameters in case junction outflows are function parameters\n            self.flush_junctions()  # Flush the current contents of the junction without including any inflows\n", "            self.flush_junctions()\n            self.update_pars()\n")
+mutant("C04-M7", "C04", "R04e", "second update_pars deleted", M, "Model.process", "            self.update_pars()  # Update the transition parameters in case junction outflows are functions _and_ they depend on compartment sizes that just changed in the line above\n", "")
+mutant("C04-M8", "C04", "R04c", "residual flush: residual also when proportions sum above 1", M, "ResidualJunctionCompartment.initial_flush", "                outflow_fractions /= total_outflow\n                has_residual = False", "                outflow_fractions /= total_outflow\n                has_residual = True")
+mutant("C04-M9", "C04", "R04c", "residual balance normalises also below 1", M, "ResidualJunctionCompartment.balance", "        if total_outflow > 1:\n            outflow_fractions /= total_outflow", "        if total_outflow > 0:\n            outflow_fractions /= total_outflow")
+mutant(
+    "C04-M10",
+    "C04",
+    "R04b",
+    "junctions balanced before ordinary outflows are resolved",
+    edits=[
+        dict(file=M, func="Model.update_links", old="        for j in self._exec_order[\"junctions\"]:\n            try:\n                j.balance(ti)\n            except Exception as e:\n                raise ModelError(f\"Error when balancing the junction: {j}\") from e", new="        pass"),
+        dict(file=M, func="Model.update_links", old="        # Adjust cached fraction outflows and convert them to number units\n", new="        for j in self._exec_order[\"junctions\"]:\n            j.balance(ti)\n"),
+    ],
+)
+mutant("C04-M11", "C04", "R04c", "plain junction flush not normalised", M, "JunctionCompartment.initial_flush", "            outflow_fractions /= np.sum(outflow_fractions)\n", "")
+mutant("C04-M12", "C04", "R04b", "flush_junctions in reverse order", M, "Model.flush_junctions", "for j in self._exec_order[\"junctions\"]:", "for j in reversed(self._exec_order[\"junctions\"]):")
+twin("C04-T1", "C04", "self.vals[0] = 0", M, "JunctionCompartment.initial_flush", "            self.vals[0] = 0.0", "            self.vals[0] = 0")
+twin("C04-T2", "C04", "initial_flush computes total first", M, "JunctionCompartment.initial_flush", "            for frac, link in zip(outflow_fractions, self.outlinks):\n                link.dest[0] += self.vals[0] * frac", "            total = self.vals[0]\n            for frac, link in zip(outflow_fractions, self.outlinks):\n                link.dest[0] += total * frac")
+twin("C04-T3", "C04", "residual balance with a flag like initial_flush", M, "ResidualJunctionCompartment.balance", "            if link.parameter is None and total_outflow < 1:", "            if total_outflow < 1 and link.parameter is None:")
+twin("C04-T4", "C04", "residual flush: >= 1 written first", M, "ResidualJunctionCompartment.initial_flush", "            if total_outflow < 1:\n                has_residual = True\n            else:\n                outflow_fractions /= total_outflow\n                has_residual = False", "            if total_outflow >= 1:\n                outflow_fractions /= total_outflow\n                has_residual = False\n            else:\n                has_residual = True")
